@@ -191,6 +191,22 @@ enum BevelKind {
     Exterior,
 }
 
+#[cfg(embedded_graphics_verif)]
+impl<C: PixelColor> StyledPixelsIterator<C> {
+    /// Verification hook: bevel kind (0 = none, 1 = interior, 2 = exterior), normal vector and
+    /// origin distance of the bevel line.
+    pub fn verif_bevel(&self) -> (u8, [i32; 2], i32) {
+        match self.bevel {
+            None => (0, [0, 0], 0),
+            Some((kind, equation)) => (
+                if kind == BevelKind::Interior { 1 } else { 2 },
+                [equation.normal_vector.x, equation.normal_vector.y],
+                equation.origin_distance,
+            ),
+        }
+    }
+}
+
 #[cfg(test)]
 mod tests {
     use super::*;
